@@ -110,6 +110,61 @@ theorem hook_ok_of_adjust_le (k : Nat) (hk : 0 < k) (s : SegIn) (hwf : s.wf = tr
     have := h d v (s.sc_of_mem hdocs d (some v) hx)
     simpa using this
 
+/-! ## where the bounds come from: sums of per-term contributions -/
+
+theorem sumContrib_le_ubsum (ts : List Term) (h : validBounds ts = true) (d : Nat) :
+    sumContrib ts d ≤ ubsum ts d := by
+  induction ts with
+  | nil => simp [sumContrib, ubsum]
+  | cons t r ih =>
+    unfold validBounds at h
+    rw [List.all_cons, Bool.and_eq_true] at h
+    have ihr := ih h.2
+    unfold sumContrib ubsum
+    have ht : t.contrib d ≤ (if t.has d = true then t.ub else 0) := by
+      unfold Term.contrib Term.has
+      cases hf : t.posts.find? (fun p => p.1 == d) with
+      | none => simp
+      | some p =>
+        have hp : p ∈ t.posts := List.mem_of_find?_eq_some hf
+        have hpd : (p.1 == d) = true := by
+          have := List.find?_some hf
+          simpa using this
+        have hany : t.posts.any (fun p => p.1 == d) = true :=
+          List.any_eq_true.mpr ⟨p, hp, hpd⟩
+        have hle := (List.all_eq_true.mp h.1) p hp
+        simp only [hany, if_true]
+        simpa using hle
+    omega
+
+/-- dis_max with a tie breaker `num/den ∈ [0,1]` never exceeds the plain sum of its children
+(`max + tie·(sum − max)`), so bounds that dominate the sum dominate dis_max scores too; boosts
+are already inside the contributions -/
+theorem disMax_le_sum (mx sm num den : Nat) (hmx : mx ≤ sm) (hnd : num ≤ den) :
+    mx + num * (sm - mx) / den ≤ sm := by
+  have h1 : num * (sm - mx) ≤ den * (sm - mx) := Nat.mul_le_mul_right _ hnd
+  have h2 : num * (sm - mx) / den ≤ sm - mx := by
+    apply Nat.div_le_of_le_mul
+    exact h1
+  omega
+
+/-- **Classical WAND statement**: when every accepted final score is at most the plain sum of
+the contributions (sums, boosts, dis_max) and every posting respects its term bound, `wand_loop`
+returns the exhaustive top-k. -/
+theorem wandLoop_eq_brute_of_validBounds (k : Nat) (hk : 0 < k) (s : SegIn) (hwf : s.wf = true)
+    (hv : validBounds s.terms = true)
+    (hs : ∀ d v, s.sc d = some v → v ≤ sumContrib s.terms d) :
+    wandLoop k false s.sc s.terms = brute k s := by
+  rw [wandLoop_eq_wandRule k s hwf]
+  have hdocs : s.docs.Pairwise (· < ·) := by
+    unfold SegIn.wf at hwf
+    simp only [Bool.and_eq_true] at hwf
+    exact incr_pairwise _ hwf.1.1.1
+  rw [wandRule_eq_best k hk s.sc _
+    (fun d v h => Nat.le_trans (hs d v h) (sumContrib_le_ubsum s.terms hv d)) s.docs hdocs,
+    s.hits_eq hdocs]
+  exact best_perm k (List.reverse_perm _)
+
 /-! ## per-segment truncation and merge -/
 
 theorem ins_eq_sort (x : Hit) (l : List Hit) : ins x l = SL.Sort.ins better x l := by
